@@ -96,7 +96,7 @@ fn gen(t: &mut Tape, tier: Tier) -> Scenario {
             4 => [127u64, 128, 129, 511, 512, 513][t.below(6) as usize],
             5 => t.range(2, 300),
             6 => {
-                if tier == Tier::Thorough {
+                if tier == Tier::Thorough && t.below(8) == 0 {
                     [65535u64, 65536, 65537][t.below(3) as usize]
                 } else {
                     [1023u64, 1024, 1025][t.below(3) as usize]
@@ -316,7 +316,7 @@ pub static C14: SimpleProp = SimpleProp {
     level: "exploration",
     rule: "one evaluation = one history of 4-12 operations (or, 1 run in 24, of A, k x (reset, B), reset, A with k up to 1025 - 65537 in the thorough tier - reuse cycles) {decompress stream i (valid, bit-flipped, truncated, spliced, or cut short by an injected source error after k one-byte refills), reset(None), reset(Some(None)), reset(Some(Some(n)))} on a single raw::LzmaDecoder (any lc/lp/pb, dictionary 1..65536) or raw::Lzma2Decoder (streams with changing properties); after every reset the next decompress is compared (verdict, bytes, consumed count) with a freshly constructed decoder with the same parameters and the size last specified; non-trivial = at least one such comparison; distinct by scenario hash",
     runs_quick: 60_000,
-    runs_thorough: 24_000_000,
+    runs_thorough: 6_000_000,
     both_profiles: false,
     assumptions: &[
         "reset(None) keeps the size last specified (as the code documents); the fresh decoder is constructed with that size",
